@@ -118,6 +118,11 @@ func c16RunShape(v asmVariant, ops []asmOp, split, resume, mode int, slack int, 
 		}
 	}
 	a := mk(capA)
+	if slack != 99 && !dry && !inPlace && (split+len(ops))%2 == 1 {
+		// every other capacity-edge case: the parent's buffer is a window of a larger array (len < cap), so
+		// that "remaining capacity" can only mean what is left of the slice that was handed in
+		a, _ = newRealEmitterWindow(v, capA)
+	}
 	for i, op := range ops[:split] {
 		if (applyReal(a, op) != nil) != outcome[i] {
 			if slack != 99 {
